@@ -103,24 +103,97 @@ _INIT_PRINT_FMT = ObsTime.getPrintFormat()
 
 
 def reset_globals():
-    """Back to the import-time values of every module-level mutable."""
+    """Back to the import-time values of every module-level and class-level data attribute of tracklib (the two time
+    formats, counters, tables filled by `global` statements, and anything a change to the library may add there)."""
     if ObsTime.getReadFormat() != _INIT_READ_FMT:
         ObsTime.setReadFormat(_INIT_READ_FMT)
     if ObsTime.getPrintFormat() != _INIT_PRINT_FMT:
         ObsTime.setPrintFormat(_INIT_PRINT_FMT)
-    try:
-        import tracklib.algo.mapping as _mp
-        for _n in ("STATES", "net"):
-            if hasattr(_mp, _n):
-                delattr(_mp, _n)
-    except Exception:
-        pass
-    try:
-        from tracklib.io.network_reader import NetworkReader as _NR
-        if hasattr(_NR, "counter"):
-            _NR.counter = 0
-    except Exception:
-        pass
+    _restore_all()
+
+
+# -- generic part: every data attribute of every tracklib module and of every class defined there -----------------------
+import copy as _copy    # noqa: E402
+import types as _types  # noqa: E402
+
+_SKIP_TYPES = (_types.ModuleType, _types.FunctionType, _types.BuiltinFunctionType, _types.MethodType, type,
+               staticmethod, classmethod, property, _types.GetSetDescriptorType, _types.MemberDescriptorType,
+               _types.WrapperDescriptorType, _types.MethodDescriptorType)
+_ATOMS = (int, float, str, bool, bytes, complex, type(None), tuple, frozenset)
+_OWNERS = {}            # id(owner) -> [owner, {name: (original object, deep copy of a container or None)}, size of vars(owner)]
+
+
+def _is_data(name, v):
+    if name.startswith("__") and name.endswith("__"):
+        return False
+    return not isinstance(v, _SKIP_TYPES) and not callable(v)
+
+
+def _record(owner):
+    table = {}
+    for name, v in list(vars(owner).items()):
+        if not _is_data(name, v):
+            continue
+        keep = None
+        if isinstance(v, (list, dict, set)):
+            try:
+                keep = _copy.deepcopy(v)
+            except Exception:
+                keep = None
+        table[name] = (v, keep)
+    _OWNERS[id(owner)] = [owner, table, len(vars(owner))]
+
+
+def _record_all():
+    for mname in sorted(m for m in sys.modules if m == "tracklib" or m.startswith("tracklib.")):
+        mod = sys.modules.get(mname)
+        if mod is None or id(mod) in _OWNERS:
+            continue
+        _record(mod)
+        for v in list(vars(mod).values()):
+            if isinstance(v, type) and getattr(v, "__module__", None) == mname and id(v) not in _OWNERS:
+                _record(v)
+
+
+_N_MODULES = [0]
+
+
+def _restore_all():
+    n = sum(1 for m in sys.modules if m.startswith("tracklib"))
+    if n != _N_MODULES[0]:          # a tracklib module imported since (lazy imports inside functions)
+        _record_all()
+        _N_MODULES[0] = n
+    for owner, table, size in _OWNERS.values():
+        d = vars(owner)
+        if len(d) != size:          # attributes that did not exist at import (created by a `global` statement, a cache)
+            for name in [k for k, v in d.items() if k not in table and _is_data(k, v)]:
+                try:
+                    delattr(owner, name)
+                except Exception:
+                    pass
+            _OWNERS[id(owner)][2] = len(vars(owner))
+        for name, (orig, keep) in table.items():
+            cur = d.get(name, _ATOMS)
+            if cur is not orig:
+                try:
+                    setattr(owner, name, orig)
+                except Exception:
+                    continue
+            if keep is not None:
+                try:
+                    same = orig == keep
+                except Exception:
+                    same = False
+                if same is not True:
+                    if isinstance(orig, list):
+                        orig[:] = _copy.deepcopy(keep)
+                    else:
+                        orig.clear()
+                        orig.update(_copy.deepcopy(keep))
+
+
+_record_all()
+_N_MODULES[0] = sum(1 for m in sys.modules if m.startswith("tracklib"))
 
 
 def globals_snapshot():
